@@ -166,7 +166,10 @@ def r2_only_adds(ctx):
                     ctx.ob("R2", "emit_text[trim_end=off]", arg is not None and strip_wrappers(arg)[0] == "arg", "without trimming the bytes are wrapped unchanged", config=cfg)
                 else:
                     good = arg is not None and has_subterm(arg, lambda s: call_is(s, "index") and variant_of(s[3][1]) and variant_of(s[3][1])[1] == "RangeTo" and strip_wrappers(s[3][0])[0] == "arg")
-                    good = good and has_subterm(arg, lambda s: call_is(s, "rposition"))
+                    # the kept length is derived from rposition (p + 1), or 0 when nothing but whitespace was found
+                    rp = any(name_is(c[2], "rposition") for c in calls(p))
+                    bound = [s2[3][1][3][0] for s2 in sym.subterms(arg) if call_is(s2, "index") and variant_of(s2[3][1]) and variant_of(s2[3][1])[1] == "RangeTo"] if arg is not None else []
+                    good = good and rp and bool(bound) and (has_subterm(bound[0], lambda s: call_is(s, "rposition")) or bound[0] == ("c", "usize", 0))
                     ctx.ob("R2", "emit_text[trim_end=on]", good, "trimming keeps a prefix bytes[..len] found by rposition", config=cfg)
             c0 = F.closure("quick_xml::reader::state::ReaderState::emit_text::{closure#0}")
             ok = c0 is not None and [name_is(callee_of(t2)[0] or "", "is_whitespace") for _, t2 in c0.calls()] == [True]
@@ -276,6 +279,8 @@ def r6_trim_start_impl(ctx):
                 for c in calls(p):
                     if name_is(c[2], "unwrap_or") and call_is(c[3][0], "position") and call_is(c[3][1], "len"):
                         ok = True
+                    if name_is(c[2], "count") and call_is(c[3][0], "take_while"):
+                        ok = True  # equivalent spelling: number of leading bytes satisfying the predicate
             ctx.ob("R6", "slice:skip_whitespace:all", ok, "the slice source skips up to the first non-whitespace byte, or everything if there is none", config=cfg)
     ctx.obs[:] = [o for o in ctx.obs if not (o["rule"] == "R6" and "skip_whitespace" not in o["site"] and not o["site"].startswith("floor:"))]
 
